@@ -9,7 +9,7 @@ import re as _re
 from typing import Any, Dict, List, Optional, Set, Tuple
 
 from .. import materialize, rx
-from ..core import AnalysisError, Ctx, assigned_names, dotted, names_in, norm, stmts_local, walk_local
+from ..core import AnalysisError, Ctx, assigned_names, dotted, effective_body, names_in, norm, stmts_local, walk_local
 from ..effects import Effects
 from ..guards import guarded, paths_of
 from ..paths import enumerate_paths
@@ -149,10 +149,15 @@ class C04:
     def _config_names(self, q: str, fn: ast.FunctionDef) -> Set[str]:
         table = {
             "annotate.annotate_citations": {"unbalanced_tags"},
-            "clean.clean_text": {"step", "steps"},
+            "clean.clean_text": {"steps"},
             "models.Document.__post_init__": {"self"},
         }
-        return table.get(q, set())
+        cfg = set(table.get(q, set()))
+        # a loop variable ranging over a configuration parameter is configuration too
+        for n in walk_local(fn):
+            if isinstance(n, ast.For) and isinstance(n.target, ast.Name) and isinstance(n.iter, ast.Name) and n.iter.id in cfg:
+                cfg.add(n.target.id)
+        return cfg
 
     def _reads_only_config(self, test: ast.AST, cfg: Set[str]) -> bool:
         t = norm(test)
@@ -430,7 +435,7 @@ class C04:
         cp = self.repo.func("models.ResourceCitation.corrected_page")
         if cp is None:
             return False
-        first = [s for s in cp.body if not (isinstance(s, ast.Expr) and isinstance(s.value, ast.Constant))]
+        first = effective_body(cp)
         summary = len(first) >= 2 and isinstance(first[1], ast.If) and " is None" in norm(first[1].test) and isinstance(first[1].body[0], ast.Return) \
             and first[1].body[0].value is None
         if not summary:
@@ -535,19 +540,23 @@ class C04:
 
     def _index_exception(self, q: str, fn, s: ast.Subscript, bt: str) -> bool:
         # one line of reason per recorded invariant
-        if q == "helpers.filter_citations" and bt == "filtered_citations":
-            return True  # seeded with one element and only popped when followed by an append (C03 R-C03-2)
-        if q == "helpers.filter_citations" and bt == "sorted_citations":
+        rets = [r for r in walk_local(fn) if isinstance(r, ast.Return) and isinstance(r.value, ast.Name)]
+        if q == "helpers.filter_citations" and any(r.value.id == bt for r in rets) and bt not in [a.arg for a in fn.args.args]:
+            return True  # the output list: seeded with one element and only popped when followed by an append (C03 R-C03-2)
+        is_sorted_copy = any(isinstance(x, ast.Assign) and norm(x.targets[0]) == bt and isinstance(x.value, ast.Call) and dotted(x.value.func) == "sorted"
+                             for x in stmts_local(fn.body))
+        if q == "helpers.filter_citations" and is_sorted_copy:
             # sorted copy of the span-de-duplicated input, which was tested non-empty first (de-duplication keeps >= 1 element)
-            first = [b for b in fn.body if not (isinstance(b, ast.Expr) and isinstance(b.value, ast.Constant))][0]
+            first = effective_body(fn)[0]
             p0 = fn.args.args[0].arg
             return isinstance(first, ast.If) and norm(first.test) == f"not {p0}" and isinstance(first.body[0], ast.Return)
-        if q == "resolve._resolve_shortcase_citation" and bt in ("candidates", "candidates[0]"):
-            # selected under len(set(<resource projection of candidates>)) == 1, which implies candidates is non-empty (C07 R-C07-1)
+        if q == "resolve._resolve_shortcase_citation":
+            # selected under len(set(<resource projection of the list>)) == 1, which implies the list is non-empty (C07 R-C07-1)
+            base = bt.split("[")[0]
             cur = s
             while cur is not fn:
                 par = cur.parent
-                if isinstance(par, ast.If) and cur in par.body and " in candidates))) == 1" in norm(par.test):
+                if isinstance(par, ast.If) and cur in par.body and f" in {base}))) == 1" in norm(par.test):
                     return True
                 cur = par
             return False
@@ -556,8 +565,6 @@ class C04:
             return ok
         if q == "resolve._resolve_id_citation" and "[last_resolution]" in bt:
             return guarded(fn, s, {"last_resolution"})  # key exists with a non-empty list once a resolution was made (C06 O3)
-        if q.startswith("utils.maybe_balance_style_tags") and bt == "matches":
-            return guarded(fn, s, {"matches"})
         return False
 
     # ---- T7 literal group keys against the generated patterns ---------------------------
@@ -675,10 +682,11 @@ class C04:
         t = norm(d)
         if t.startswith("re.escape("):
             return True
-        if t == "set(long_chars)" and fn.name == "convert_regex":
+        if fn.name == "convert_regex" and isinstance(d, ast.Call) and dotted(d.func) == "set" and len(d.args) == 1 and isinstance(d.args[0], ast.Name):
             # members of a character class drawn from `[c for c in regex if len(c.encode('utf8')) > 1]`: non-ASCII characters only,
             # none of which is a metacharacter inside [...]
-            return any(isinstance(s, ast.Assign) and norm(s.targets[0]) == "long_chars" and "len(c.encode('utf8')) > 1" in norm(s.value) for s in stmts_local(fn.body))
+            return any(isinstance(s, ast.Assign) and norm(s.targets[0]) == d.args[0].id and isinstance(s.value, ast.ListComp) and s.value.generators[0].ifs
+                       and ".encode('utf8')) > 1" in norm(s.value.generators[0].ifs[0]) for s in stmts_local(fn.body))
         if isinstance(d, ast.Call) and isinstance(d.func, ast.Attribute) and d.func.attr in ("replace", "strip") and self._escaped(fn, d.func.value):
             return True
         if isinstance(d, ast.Call) and dotted(d.func) == "re.sub" and len(d.args) == 3 and self._escaped(fn, d.args[2]) and self._escaped(fn, d.args[1]):
@@ -696,8 +704,10 @@ class C04:
             defs = [s for s in stmts_local(fn.body) if isinstance(s, ast.Assign) and norm(s.targets[0]) == d.id]
             if defs and all(self._escaped(fn, s.value) for s in defs):
                 return True
-            if d.id in ("tags", "tag") or d.id in self.rxs.consts:
-                return all(self._escaped(fn, s.value) or not self._dynamic_parts(fn, s.value) for s in defs) if defs else True
+            if d.id in self.rxs.consts:
+                return True
+            if defs and all(self._escaped(fn, s.value) or not self._dynamic_parts(fn, s.value) for s in defs):
+                return True
             if d.id == "regex" and fn.name in ("match_on_tokens",):
                 return True  # the pattern parameter itself (a module constant at every call site)
         return False
@@ -731,12 +741,13 @@ class C04:
                     cur = par
                 src = norm(recv)
                 not_input = None
-                if "json_str" in src or "json.dumps" in src:
+                def _defs(name):
+                    return [x.value for x in stmts_local(fn.body) if isinstance(x, (ast.Assign, ast.AnnAssign)) and getattr(x, "value", None) is not None
+                            and norm(x.targets[0] if isinstance(x, ast.Assign) else x.target) == name]
+                if "json.dumps" in src or (isinstance(recv, ast.Name) and any("json.dumps" in norm(v) for v in _defs(recv.id))):
                     not_input = "json.dumps output (ensure_ascii default: pure ASCII)"
-                elif src in ("regex", "e.regex") or src.startswith(("str(expressions)", "str(flags)")):
-                    not_input = "an extractor pattern / its repr, not document text"
-                elif src == "c" and q.endswith("convert_regex"):
-                    not_input = "a character of an extractor pattern"
+                elif q.startswith("tokenizers.HyperscanTokenizer.hyperscan_db"):
+                    not_input = "an extractor pattern / its repr (built from self.extractors), not document text"
                 if c.func.attr == "encode":
                     ok = handler in safe_handlers or not_input is not None or in_try
                 else:
